@@ -736,16 +736,27 @@ func ruleE7(c *Ctx) {
 		n++
 		// the inputFormat store must take this result, and the argument must come from args[0]
 		fromFirst := false
+		other := ""
 		returnLeaves(call.Call.Args[0], func(l ssa.Value) bool {
 			if u, ok := l.(*ssa.UnOp); ok {
 				if ia, ok := u.X.(*ssa.IndexAddr); ok {
 					if k, ok := constInt64(ia.Index); ok && k == 0 {
 						fromFirst = true
+						return true
 					}
 				}
 			}
+			if cst, ok := l.(*ssa.Const); ok && cst.Value != nil && cst.Value.Kind() == constant.String && constant.StringVal(cst.Value) == "" {
+				return true // no file argument
+			}
+			if _, isPhi := l.(*ssa.Phi); !isPhi {
+				other = exprOfValue(l)
+			}
 			return false
 		})
+		if other != "" {
+			fromFirst = false
+		}
 		key := "initCommand/FormatStringFromFilename(arg)"
 		if fromFirst {
 			r.Discharge("E7", key, c.P.pos(call.Pos()), "format is derived from args[0]")
